@@ -140,6 +140,19 @@ func readDump(prog string) (args []string, stdin string) {
 	return args, string(in)
 }
 
+// tryReadDump: like readDump, but reports whether the hook ran at all.
+func tryReadDump(prog string) (args []string, ran bool) {
+	for i := 0; i < 300; i++ {
+		if _, err := os.Stat(prog + ".out"); err == nil {
+			a, _ := readDump(prog)
+			return a, true
+		}
+		time.Sleep(time.Millisecond)
+	}
+	os.RemoveAll(filepath.Dir(prog))
+	return nil, false
+}
+
 // waitMode waits (natively) until the UI has left the given mode.
 func waitNotMode(s *State, mode int) {
 	for i := 0; i < 2000; i++ {
